@@ -318,18 +318,19 @@ def r6(ctx):
                        '(accumulated over all tasks), the parent appends every returned file once and merges header + all files')
 def r7(ctx):
     g = ctx.fn(TAGGING, 'run_tagging_tasks')
-    loops = [l for l in walk_no_nested(g) if isinstance(l, ast.For) and src(l.iter) == 'arglist']
+    loops = [l for l in walk_no_nested(g) if isinstance(l, ast.For) and any(isinstance(c, ast.Call) and last_name(dotted(c.func) or '') == 'run_tagging_task' for c in walk_no_nested(l))]
     if len(loops) != 1:
         raise AnalysisError('run_tagging_tasks: task loop not found')
-    rets = [r for r in walk_no_nested(g) if isinstance(r, ast.Return) and isinstance(r.value, ast.Tuple) and src(r.value.elts[0]) == 'target_file']
+    # the return that hands the per-job file to the parent: (<file name>, meta) - the other return gives (None, meta)
+    rets = [r for r in walk_no_nested(g) if isinstance(r, ast.Return) and isinstance(r.value, ast.Tuple) and isinstance(r.value.elts[0], ast.Name)]
     keep = None
     mod = ctx.ix.module(TAGGING)
     if rets:
         p = mod.parent[rets[0]]
         keep = p.test if isinstance(p, ast.If) else None
     cnt = None
-    if isinstance(keep, ast.Compare) and isinstance(keep.left, ast.Name):
-        cnt = keep.left.id
+    if keep is not None and len(names_in(keep)) == 1:
+        cnt = next(iter(names_in(keep)))
     upd = [s for s in walk_no_nested(loops[0]) if isinstance(s, (ast.Assign, ast.AugAssign)) and
            src(s.targets[0] if isinstance(s, ast.Assign) else s.target) == cnt]
     ok = cnt is not None and len(upd) >= 1 and all(isinstance(s, ast.AugAssign) and isinstance(s.op, ast.Add) for s in upd)
